@@ -15954,3 +15954,415 @@ let rec side = function
 and side_v = function
 | VExp e -> side e
 | _ -> true
+
+(** val fname : value -> char list **)
+
+let fname l =
+  match field_of l with
+  | Some f -> f
+  | None -> []
+
+(** val name_ok : char list -> bool **)
+
+let name_ok f =
+  (&&)
+    ((&&) (match str f with
+           | [] -> false
+           | _ :: _ -> true) (forallb (fun c -> negb ((=) c '"')) (str f)))
+    (Nat.leb (length (str f)) (S (S (S (S (S (S (S (S (S (S (S (S (S (S (S (S
+      (S (S (S (S (S (S (S (S (S (S (S (S (S (S (S (S (S (S (S (S (S (S (S (S
+      (S (S (S (S (S (S (S (S (S (S (S (S (S (S (S (S (S (S (S (S (S (S (S
+      O))))))))))))))))))))))))))))))))))))))))))))))))))))))))))))))))
+
+(** val names_ok : expr -> bool **)
+
+let rec names_ok = function
+| E (l, op, rt, _, _) ->
+  (match op with
+   | And -> (&&) (names_ok_v l) (names_ok_v rt)
+   | Or -> (&&) (names_ok_v l) (names_ok_v rt)
+   | Not -> names_ok_v l
+   | Must -> names_ok_v l
+   | MustNot -> names_ok_v l
+   | _ -> name_ok (fname l))
+
+(** val names_ok_v : value -> bool **)
+
+and names_ok_v = function
+| VExp e -> names_ok e
+| _ -> true
+
+(** val sqs : char list -> char list **)
+
+let sqs v =
+  append ('\''::[])
+    (append (replace_char '\'' ('\''::('\''::[])) v) ('\''::[]))
+
+(** val int64 : z -> bool **)
+
+let int64 z0 =
+  (&&)
+    (Z.leb (Zneg (XO (XO (XO (XO (XO (XO (XO (XO (XO (XO (XO (XO (XO (XO (XO
+      (XO (XO (XO (XO (XO (XO (XO (XO (XO (XO (XO (XO (XO (XO (XO (XO (XO (XO
+      (XO (XO (XO (XO (XO (XO (XO (XO (XO (XO (XO (XO (XO (XO (XO (XO (XO (XO
+      (XO (XO (XO (XO (XO (XO (XO (XO (XO (XO (XO (XO
+      XH)))))))))))))))))))))))))))))))))))))))))))))))))))))))))))))))) z0)
+    (Z.leb z0 (Zpos (XI (XI (XI (XI (XI (XI (XI (XI (XI (XI (XI (XI (XI (XI
+      (XI (XI (XI (XI (XI (XI (XI (XI (XI (XI (XI (XI (XI (XI (XI (XI (XI (XI
+      (XI (XI (XI (XI (XI (XI (XI (XI (XI (XI (XI (XI (XI (XI (XI (XI (XI (XI
+      (XI (XI (XI (XI (XI (XI (XI (XI (XI (XI (XI (XI
+      XH))))))))))))))))))))))))))))))))))))))))))))))))))))))))))))))))
+
+(** val like_plain : char list -> bool **)
+
+let like_plain p =
+  let r = sqs p in
+  let n1 = length0 r in
+  negb
+    ((&&) ((&&) (Nat.leb (S (S (S (S O)))) n1) (char_at_is r (S O) '/'))
+      (char_at_is r (sub n1 (S (S O))) '/'))
+
+(** val bound_int64 : value -> bool **)
+
+let bound_int64 v =
+  match int_bound v with
+  | Some z0 -> int64 z0
+  | None -> true
+
+(** val text_ok : expr -> bool **)
+
+let rec text_ok = function
+| E (l, op, rt, _, _) ->
+  (match op with
+   | And -> (&&) (text_ok_v l) (text_ok_v rt)
+   | Or -> (&&) (text_ok_v l) (text_ok_v rt)
+   | Like ->
+     (match rt with
+      | VExp e0 ->
+        let E (left, _, _, _, _) = e0 in
+        (match left with
+         | VStr p -> like_plain p
+         | _ -> true)
+      | _ -> true)
+   | Not -> text_ok_v l
+   | Range ->
+     (match rt with
+      | VBound (lo, hi, _) -> (&&) (bound_int64 lo) (bound_int64 hi)
+      | _ -> true)
+   | Must -> text_ok_v l
+   | MustNot -> text_ok_v l
+   | _ -> true)
+
+(** val text_ok_v : value -> bool **)
+
+and text_ok_v = function
+| VExp e -> text_ok e
+| _ -> true
+
+(** val pnum : nat -> bytes0 **)
+
+let pnum k =
+  nat_digits (Z.of_nat k)
+
+(** val const_param : expr -> value option **)
+
+let const_param = function
+| E (left, op, right, _, _) ->
+  (match left with
+   | VInt z0 ->
+     (match op with
+      | Literal -> (match right with
+                    | VNil -> Some (VInt z0)
+                    | _ -> None)
+      | _ -> None)
+   | VStr s ->
+     (match op with
+      | Literal ->
+        (match right with
+         | VNil -> if eqb0 s ('*'::[]) then None else Some (VStr s)
+         | _ -> None)
+      | _ -> None)
+   | _ -> None)
+
+(** val consts_param : expr list -> value list option **)
+
+let rec consts_param = function
+| [] -> Some []
+| x :: r ->
+  (match const_param x with
+   | Some v ->
+     (match consts_param r with
+      | Some vs -> Some (v :: vs)
+      | None -> None)
+   | None -> None)
+
+(** val param_toks : nat -> nat -> tok list **)
+
+let rec param_toks k = function
+| O -> []
+| S n' ->
+  (match n' with
+   | O -> (TParam (pnum k)) :: []
+   | S _ -> (TParam (pnum k)) :: (TComma :: (param_toks (S k) n')))
+
+(** val param_asts : nat -> nat -> ast list **)
+
+let rec param_asts k = function
+| O -> []
+| S n' -> (AParam (pnum k)) :: (param_asts (S k) n')
+
+(** val trp : expr -> nat -> ((tok list * ast) * value list) option **)
+
+let rec trp e k =
+  let E (l, op, rt, _, _) = e in
+  (match op with
+   | And ->
+     (match l with
+      | VExp x ->
+        (match rt with
+         | VExp y ->
+           (match trp x k with
+            | Some p ->
+              let (p0, px) = p in
+              let (tx, ax) = p0 in
+              (match trp y (add k (length px)) with
+               | Some p1 ->
+                 let (p2, py) = p1 in
+                 let (ty, ay) = p2 in
+                 Some
+                 (((TLP :: (app tx (TRP :: ((TKw
+                             (match op with
+                              | And -> KAnd
+                              | _ -> KOr)) :: (TLP :: (app ty (TRP :: []))))))),
+                 (match op with
+                  | And -> mk_and ax ay
+                  | _ -> mk_or ax ay)), (app px py))
+               | None -> None)
+            | None -> None)
+         | _ -> None)
+      | _ -> None)
+   | Or ->
+     (match l with
+      | VExp x ->
+        (match rt with
+         | VExp y ->
+           (match trp x k with
+            | Some p ->
+              let (p0, px) = p in
+              let (tx, ax) = p0 in
+              (match trp y (add k (length px)) with
+               | Some p1 ->
+                 let (p2, py) = p1 in
+                 let (ty, ay) = p2 in
+                 Some
+                 (((TLP :: (app tx (TRP :: ((TKw
+                             (match op with
+                              | And -> KAnd
+                              | _ -> KOr)) :: (TLP :: (app ty (TRP :: []))))))),
+                 (match op with
+                  | And -> mk_and ax ay
+                  | _ -> mk_or ax ay)), (app px py))
+               | None -> None)
+            | None -> None)
+         | _ -> None)
+      | _ -> None)
+   | Equals ->
+     (match field_of l with
+      | Some f ->
+        (match rt with
+         | VExp lf ->
+           (match cmp_text op with
+            | Some o ->
+              (match const_param lf with
+               | Some v ->
+                 Some ((((TIdent (str f)) :: ((TOp (str o)) :: ((TParam
+                   (pnum k)) :: []))), (AOp ((str o), (ACol (str f)), (AParam
+                   (pnum k))))), (v :: []))
+               | None -> None)
+            | None -> None)
+         | _ -> None)
+      | None -> None)
+   | Like ->
+     (match field_of l with
+      | Some f ->
+        (match rt with
+         | VExp e0 ->
+           let E (left, op0, right, _, _) = e0 in
+           (match left with
+            | VStr p ->
+              (match op0 with
+               | Wild ->
+                 (match right with
+                  | VNil ->
+                    if is_regex_text p
+                    then None
+                    else Some ((((TIdent (str f)) :: ((TKw KSimilar) :: ((TKw
+                           KTo) :: ((TParam (pnum k)) :: [])))), (ASimilar
+                           ((ACol (str f)), (AParam (pnum k))))), ((VStr
+                           (translate p)) :: []))
+                  | _ -> None)
+               | _ -> None)
+            | _ -> None)
+         | _ -> None)
+      | None -> None)
+   | Not ->
+     (match l with
+      | VExp x ->
+        (match rt with
+         | VNil ->
+           (match trp x k with
+            | Some p ->
+              let (p0, px) = p in
+              let (tx, ax) = p0 in
+              Some ((((TKw KNot) :: (TLP :: (app tx (TRP :: [])))), (ANot
+              ax)), px)
+            | None -> None)
+         | _ -> None)
+      | _ -> None)
+   | Range ->
+     (match field_of l with
+      | Some f ->
+        (match rt with
+         | VBound (lo, hi, incl) ->
+           let c = TIdent (str f) in
+           let ge = str (if incl then '>'::('='::[]) else '>'::[]) in
+           let le = str (if incl then '<'::('='::[]) else '<'::[]) in
+           (match int_bound lo with
+            | Some a ->
+              (match int_bound hi with
+               | Some b ->
+                 Some (((c :: ((TOp ge) :: ((TParam (pnum k)) :: ((TKw
+                   KAnd) :: (c :: ((TOp le) :: ((TParam
+                   (pnum (S k))) :: []))))))), (ABool (true, ((AOp (ge, (ACol
+                   (str f)), (AParam (pnum k)))) :: ((AOp (le, (ACol
+                   (str f)), (AParam (pnum (S k))))) :: []))))), ((VInt
+                   a) :: ((VInt b) :: [])))
+               | None ->
+                 if is_star hi
+                 then Some (((c :: ((TOp ge) :: ((TParam (pnum k)) :: []))),
+                        (AOp (ge, (ACol (str f)), (AParam (pnum k))))),
+                        ((VInt a) :: []))
+                 else None)
+            | None ->
+              (match int_bound hi with
+               | Some b ->
+                 if is_star lo
+                 then Some (((c :: ((TOp le) :: ((TParam (pnum k)) :: []))),
+                        (AOp (le, (ACol (str f)), (AParam (pnum k))))),
+                        ((VInt b) :: []))
+                 else None
+               | None -> None))
+         | _ -> None)
+      | None -> None)
+   | Must ->
+     (match l with
+      | VExp x -> (match rt with
+                   | VNil -> trp x k
+                   | _ -> None)
+      | _ -> None)
+   | MustNot ->
+     (match l with
+      | VExp x ->
+        (match rt with
+         | VNil ->
+           (match trp x k with
+            | Some p ->
+              let (p0, px) = p in
+              let (tx, ax) = p0 in
+              Some ((((TKw KNot) :: (TLP :: (app tx (TRP :: [])))), (ANot
+              ax)), px)
+            | None -> None)
+         | _ -> None)
+      | _ -> None)
+   | Greater ->
+     (match field_of l with
+      | Some f ->
+        (match rt with
+         | VExp lf ->
+           (match cmp_text op with
+            | Some o ->
+              (match const_param lf with
+               | Some v ->
+                 Some ((((TIdent (str f)) :: ((TOp (str o)) :: ((TParam
+                   (pnum k)) :: []))), (AOp ((str o), (ACol (str f)), (AParam
+                   (pnum k))))), (v :: []))
+               | None -> None)
+            | None -> None)
+         | _ -> None)
+      | None -> None)
+   | Less ->
+     (match field_of l with
+      | Some f ->
+        (match rt with
+         | VExp lf ->
+           (match cmp_text op with
+            | Some o ->
+              (match const_param lf with
+               | Some v ->
+                 Some ((((TIdent (str f)) :: ((TOp (str o)) :: ((TParam
+                   (pnum k)) :: []))), (AOp ((str o), (ACol (str f)), (AParam
+                   (pnum k))))), (v :: []))
+               | None -> None)
+            | None -> None)
+         | _ -> None)
+      | None -> None)
+   | GreaterEq ->
+     (match field_of l with
+      | Some f ->
+        (match rt with
+         | VExp lf ->
+           (match cmp_text op with
+            | Some o ->
+              (match const_param lf with
+               | Some v ->
+                 Some ((((TIdent (str f)) :: ((TOp (str o)) :: ((TParam
+                   (pnum k)) :: []))), (AOp ((str o), (ACol (str f)), (AParam
+                   (pnum k))))), (v :: []))
+               | None -> None)
+            | None -> None)
+         | _ -> None)
+      | None -> None)
+   | LessEq ->
+     (match field_of l with
+      | Some f ->
+        (match rt with
+         | VExp lf ->
+           (match cmp_text op with
+            | Some o ->
+              (match const_param lf with
+               | Some v ->
+                 Some ((((TIdent (str f)) :: ((TOp (str o)) :: ((TParam
+                   (pnum k)) :: []))), (AOp ((str o), (ACol (str f)), (AParam
+                   (pnum k))))), (v :: []))
+               | None -> None)
+            | None -> None)
+         | _ -> None)
+      | None -> None)
+   | In ->
+     (match field_of l with
+      | Some f ->
+        (match rt with
+         | VExp e0 ->
+           let E (left, op0, right, _, _) = e0 in
+           (match left with
+            | VList l0 ->
+              (match l0 with
+               | [] -> None
+               | x :: lits ->
+                 (match op0 with
+                  | List ->
+                    (match right with
+                     | VNil ->
+                       (match consts_param (x :: lits) with
+                        | Some vs ->
+                          Some ((((TIdent (str f)) :: ((TKw
+                            KIn) :: (TLP :: (app (param_toks k (length vs))
+                                              (TRP :: []))))), (AIn ((ACol
+                            (str f)), (param_asts k (length vs))))), vs)
+                        | None -> None)
+                     | _ -> None)
+                  | _ -> None))
+            | _ -> None)
+         | _ -> None)
+      | None -> None)
+   | _ -> None)
